@@ -565,7 +565,10 @@ class CCITTFaxDecoder(CCITTG4Parser):
         self._buf += arr.tobytes()
 
 
-def ccittfaxdecode(data: bytes, params: Dict[str, object]) -> bytes:
+def ccittfaxdecode(data: bytes, params: Optional[Dict[str, object]]) -> bytes:
+    if params is None:
+        # A null entry of a DecodeParms array stands for "all defaults".
+        params = {}
     K = params.get("K")
     if K == -1:
         # ISO 32000-1 table 11: Columns defaults to 1728 when absent.
